@@ -104,6 +104,13 @@ def channels(run, tmp):
                 f.write(text.replace("\n", nl) if nl != "mixed" else mixed)
             kw = {"encoding": arg} if arg else {}
             deliveries = [("str-path", lambda: lasio.read(path, **kw)), ("Path", lambda: lasio.read(pathlib.Path(path), **kw))]
+            # option pairs: the detection switched off next to a named encoding; a BOM wins over whatever encoding= says
+            if arg:
+                deliveries.append(("str-path-noauto", lambda: lasio.read(path, autodetect_encoding=False, **kw)))
+            if codec == "utf-8-sig":
+                deliveries.append(("str-path-utf8", lambda: lasio.read(path, encoding="utf-8")))
+                deliveries.append(("str-path-utf8-noauto", lambda: lasio.read(path, encoding="utf-8", autodetect_encoding=False)))
+                deliveries.append(("Path-utf8sig-noauto", lambda: lasio.read(pathlib.Path(path), encoding="utf-8-sig", autodetect_encoding=False)))
 
             def via_fileobj():
                 with open(path, "r", encoding=codec) as f:
